@@ -394,6 +394,21 @@ structure AboveRequire : Prop where
   fam : P.family = .above
   style : P.style = sRequire
 
+/-- (wp2d) the same extractor, judgement and fix serve `previous_line` with style require_blank_line and no hierarchy
+    limits: the theorems below are stated for both families -/
+structure AboveLike : Prop where
+  fam : P.family = .above ∨ (P.family = .previous ∧ P.hier = none)
+  style : P.style = sRequire
+
+theorem AboveRequire.like {P : Params} (h : AboveRequire P) : AboveLike P := ⟨Or.inl h.fam, h.style⟩
+
+theorem sRequire_ne_sRequireComment : (sRequire == sRequireComment) = false := by decide
+theorem sRequire_ne_sNoBlank : (sRequire == sNoBlank) = false := by decide
+theorem sRequire_ne_sAllowComment : (sRequire == sAllowComment) = false := by decide
+
+/-- the solution text of the family -/
+def solOfFam (P : Params) : Str := match P.family with | .above => solAboveInsert | _ => P.solution
+
 def violBefore (rows : List (Row Tok)) (k : Nat) : Option Viol :=
   match rows[k]? with
   | some r =>
@@ -401,31 +416,48 @@ def violBefore (rows : List (Row Tok)) (k : Nat) : Option Viol :=
     else some { line := k + 2, start := offs rows k, toks := r.1, act := Act.insert.code }
   | none => none
 
-theorem analyzeA_join (hP : AboveRequire P) (hO : HOracle) (rows : List (Row Tok)) (h : RowsOk uid rows) (hcs : CsOk P.cs) :
+theorem analyzeA_join (hP : AboveLike P) (hO : HOracle) (rows : List (Row Tok)) (h : RowsOk uid rows) (hcs : CsOk P.cs) :
     (sem uid inst P hO).analyze (join rows) =
       ((List.range rows.length).filter (nextTrigAt uid P.cs rows)).filterMap (violBefore inst P rows) := by
   unfold sem
   simp only
-  unfold analyzeE analyzeWith toisWith
-  rw [hP.fam]
-  simp only [hP.style, beq_self_eq_true, if_true, lineAboveLineStartingWithB, Bool.false_eq_true, if_false,
-    lineAbove_join uid P.cs rows h hcs, bind, Except.bind, pure, Except.pure]
+  unfold analyzeE analyzeWith
+  have htois : toisWith P (hierAt uid hO (join rows)) (join rows) (processTokens uid (join rows)) =
+      .ok (ones (((List.range rows.length).filter (nextTrigAt uid P.cs rows)).map (regionBefore rows))) := by
+    unfold toisWith
+    rcases hP.fam with hf | ⟨hf, hh⟩
+    · rw [hf]
+      simp only [hP.style, beq_self_eq_true, if_true, lineAboveLineStartingWithB, Bool.false_eq_true, if_false,
+        lineAbove_join uid P.cs rows h hcs, bind, Except.bind, pure, Except.pure]
+    · rw [hf]
+      simp only [hP.style, sRequire_ne_sRequireComment, sRequire_ne_sNoBlank, sRequire_ne_sAllowComment, hh,
+        Bool.false_eq_true, if_false, lineAboveLineStartingWithB, lineAbove_join uid P.cs rows h hcs, bind, Except.bind, pure,
+        Except.pure]
+  rw [htois]
+  simp only
   unfold analyzeRegions
   have hj : ∀ r ∈ ones (((List.range rows.length).filter (nextTrigAt uid P.cs rows)).map (regionBefore rows)),
       judge inst P r = .ok (match r with
         | .one (some t) => if cleanRequire inst P P.allow t.toks then none
-            else some ({ line := t.line, start := (t.start.getD 0).toNat, toks := t.toks, act := Act.insert.code }, solAboveInsert)
+            else some ({ line := t.line, start := (t.start.getD 0).toNat, toks := t.toks, act := Act.insert.code }, solOfFam P)
         | _ => none) := by
     intro r hr
     unfold ones at hr
     obtain ⟨t, ht, rfl⟩ := List.mem_map.mp hr
     obtain ⟨k, _, rfl⟩ := List.mem_map.mp ht
-    unfold judge
-    rw [hP.fam]
-    simp only [hP.style, beq_self_eq_true, if_true, judgeRequire, mkViol, regionBefore]
-    by_cases hc : cleanRequire inst P P.allow ((Option.map (fun x => x.fst) rows[k]?).getD []) = true
-    · simp [hc, pure, Except.pure]
-    · simp [hc, pure, Except.pure]
+    unfold judge solOfFam
+    rcases hP.fam with hf | ⟨hf, _⟩
+    · rw [hf]
+      simp only [hP.style, beq_self_eq_true, if_true, judgeRequire, mkViol, regionBefore]
+      by_cases hc : cleanRequire inst P P.allow ((Option.map (fun x => x.fst) rows[k]?).getD []) = true
+      · simp [hc, pure, Except.pure]
+      · simp [hc, pure, Except.pure]
+    · rw [hf]
+      simp only [hP.style, sRequire_ne_sNoBlank, Bool.false_eq_true, if_false, beq_self_eq_true, if_true, judgeRequire, mkViol,
+        regionBefore]
+      by_cases hc : cleanRequire inst P P.allow ((Option.map (fun x => x.fst) rows[k]?).getD []) = true
+      · simp [hc, pure, Except.pure]
+      · simp [hc, pure, Except.pure]
   rw [filterMapE_ok _ _ _ hj]
   simp only
   unfold ones
@@ -488,7 +520,7 @@ theorem range_formA (off line : Nat) (rows : List (Row Tok)) :
     · simp [hh]
     · simp [hh]
 
-theorem analyzeA_scan (hP : AboveRequire P) (hO : HOracle) (rows : List (Row Tok)) (h : RowsOk uid rows) (hcs : CsOk P.cs) :
+theorem analyzeA_scan (hP : AboveLike P) (hO : HOracle) (rows : List (Row Tok)) (h : RowsOk uid rows) (hcs : CsOk P.cs) :
     (sem uid inst P hO).analyze (join rows) = violsA uid inst P 0 2 rows := by
   rw [analyzeA_join uid inst P hP hO rows h hcs, ← range_formA, List.filterMap_filter]
   apply filterMap_ext_mem
@@ -538,13 +570,13 @@ theorem piecesA_hit (rows : List (Row Tok)) : ∀ p ∈ piecesA uid inst P rows,
     · rfl
     · exact ih p hp hh
 
-theorem fixTok_insert_rowA (hP : AboveRequire P) (off line : Nat) (r : Row Tok) :
+theorem fixTok_insert_rowA (hP : AboveLike P) (off line : Nat) (r : Row Tok) :
     fixTok P (violOfRow off line r) = r.1 ++ [crTok P.crCls, blankTok P.blCls] := by
   unfold fixTok fixE violOfRow
-  rw [hP.fam]
-  simp [Act.ofCode, Act.code, Act.str, aboveFixV, pure, Except.pure]
+  rcases hP.fam with hf | ⟨hf, _⟩ <;> rw [hf] <;>
+    simp [Act.ofCode, Act.code, Act.str, aboveFixV, pure, Except.pure]
 
-theorem violsA_edits (hP : AboveRequire P) (hO : HOracle) (off line : Nat) (rows : List (Row Tok))
+theorem violsA_edits (hP : AboveLike P) (hO : HOracle) (off line : Nat) (rows : List (Row Tok))
     (hb : ∀ r ∈ rows, ∀ t ∈ r.1, t.isBof = false) :
     (violsA uid inst P off line rows).map (editOf (sem uid inst P hO)) = editsFrom off (piecesA uid inst P rows) := by
   induction rows generalizing off line with
@@ -573,7 +605,7 @@ theorem violsA_edits (hP : AboveRequire P) (hO : HOracle) (off line : Nat) (rows
     · simp only [hh, Bool.false_eq_true, if_false, List.nil_append]
 
 /-- **the file after `Rule.fix`** -/
-theorem fixAllA_join (hP : AboveRequire P) (hO : HOracle) (rows : List (Row Tok)) (h : RowsOk uid rows) (hcs : CsOk P.cs)
+theorem fixAllA_join (hP : AboveLike P) (hO : HOracle) (rows : List (Row Tok)) (h : RowsOk uid rows) (hcs : CsOk P.cs)
     (hb : ∀ r ∈ rows, ∀ t ∈ r.1, t.isBof = false) :
     fixAll uid inst P hO (join rows) = join (expandA uid inst P rows) := by
   unfold fixAll
@@ -658,7 +690,7 @@ theorem rowsOk_expandA (hn : NewTokOk uid inst P) (rows : List (Row Tok)) (h : R
       · exact ih'.nocr x hx
 
 /-- **whole-rule idempotence of blank_line_above_line_starting_with_token** (style require_blank_line) -/
-theorem analyze_fixAll_above (hP : AboveRequire P) (hO : HOracle) (rows : List (Row Tok)) (h : RowsOk uid rows)
+theorem analyze_fixAll_above (hP : AboveLike P) (hO : HOracle) (rows : List (Row Tok)) (h : RowsOk uid rows)
     (hcs : CsOk P.cs) (hb : ∀ r ∈ rows, ∀ t ∈ r.1, t.isBof = false) (hn : NewTokOk uid inst P) :
     (sem uid inst P hO).analyze (fixAll uid inst P hO (join rows)) = [] := by
   rw [fixAllA_join uid inst P hP hO rows h hcs hb,
@@ -701,7 +733,7 @@ theorem effect_expandA (rows : List (Row Tok)) (off line : Nat) :
         omega
 
 /-- **whole rule: layout-only, and exactly one line break more per violation** -/
-theorem fixAll_above_effect (hP : AboveRequire P) (hO : HOracle) (rows : List (Row Tok)) (h : RowsOk uid rows)
+theorem fixAll_above_effect (hP : AboveLike P) (hO : HOracle) (rows : List (Row Tok)) (h : RowsOk uid rows)
     (hcs : CsOk P.cs) (hb : ∀ r ∈ rows, ∀ t ∈ r.1, t.isBof = false) :
     LayoutOnly (join rows) (fixAll uid inst P hO (join rows)) ∧
     (crSeq (fixAll uid inst P hO (join rows))).length =
